@@ -209,9 +209,20 @@ func (r *runner) post(a *Agent, p *preState, input func(cid int, my string) stri
 	a.mu.Unlock()
 	sort.Strings(newDIDs)
 
+	// the document the agent drew for itself in this step: it names the agent's own endpoint (also when no destination
+	// can be made of it: the legacy service lists a raw key in a did-communication block)
 	for _, d := range newDIDs {
 		if dr, err := a.ctx.VDRegistry().Resolve(d); err == nil && dr.DIDDocument != nil {
-			if abs := absDoc(dr.DIDDocument); abs.EP == a.Endpoint {
+			abs := absDoc(dr.DIDDocument)
+			own := abs.EP == a.Endpoint
+
+			for _, sv := range abs.Svcs {
+				if sv.EP == a.Endpoint {
+					own = true
+				}
+			}
+
+			if own {
 				my = abs
 			}
 		}
@@ -1271,7 +1282,12 @@ func runCase(spec *Spec, kind string, idx int) *hx.Record {
 			paths = append(paths, w.agent(n).coqPaths()...)
 		}
 
-		rec.Coq = "(Case " + hx.CoqList(ags) + " " + hx.CoqList(paths) + ")"
+		dests := make([]string, 0, len(w.destOrder))
+		for _, term := range w.destOrder {
+			dests = append(dests, "("+term+", "+w.dests[term]+")")
+		}
+
+		rec.Coq = "(Case " + hx.CoqList(ags) + " " + hx.CoqList(paths) + " " + hx.CoqList(dests) + ")"
 	}
 
 	return rec
